@@ -83,6 +83,9 @@ pub mod vx_facts {
     /// a byte vector's length fits in isize (allocation limit)
     pub broadcast axiom fn ax_vec_u8_len(v: Vec<u8>)
         ensures #[trigger] v@.len() <= isize::MAX;
+    /// a byte slice's length fits in isize (no object is larger than isize::MAX bytes)
+    pub broadcast axiom fn ax_slice_u8_len(s: &[u8])
+        ensures #[trigger] s@.len() <= isize::MAX;
     /// a slice's length fits in usize
     pub broadcast axiom fn ax_slice_len<T>(s: &[T])
         ensures #[trigger] s@.len() <= usize::MAX;
